@@ -503,7 +503,7 @@ func RuleListen(r *Report, p *Program) {
 						for j := i - 1; j >= 0; j-- {
 							pe := pa.Events[j]
 							if isReadCall(pe) {
-								okArg = strings.Contains(arg, pe.Result.String()+"#0") && len(pe.Args) >= 2 && strings.HasPrefix(arg, pe.Args[1].String())
+								okArg = strings.Contains(arg, pe.Result.String()+"#0") && len(pe.Args) >= 2 && (strings.HasPrefix(arg, pe.Args[1].String()) || viewOfReadBuffer(e.Args[0], pe))
 								break
 							}
 						}
@@ -788,4 +788,34 @@ func methodOfType(p *Program, t types.Type, name string) *ssa.Function {
 		}
 	}
 	return nil
+}
+
+// viewOfReadBuffer: t is buf[0:n] (or buf[:n]) of the storage the read wrote into, n being the count it returned.
+func viewOfReadBuffer(t *Term, read Event) bool {
+	if t == nil || t.Op != "slice" || len(t.Args) < 3 || len(read.Args) < 2 || read.Result == nil {
+		return false
+	}
+	cellOf := func(x *Term) *Cell {
+		for x != nil {
+			switch x.Op {
+			case "sref", "ptr":
+				return x.Cell
+			case "slice":
+				x = x.Args[0]
+			default:
+				return nil
+			}
+		}
+		return nil
+	}
+	bc, rc := cellOf(t.Args[0]), cellOf(read.Args[1])
+	if bc == nil || bc != rc {
+		return false
+	}
+	if t.Args[1] != nil {
+		if v, ok := t.Args[1].Int64(); !ok || v != 0 {
+			return false
+		}
+	}
+	return t.Args[2] != nil && t.Args[2].String() == read.Result.String()+"#0"
 }
